@@ -37,7 +37,7 @@
 (***************************************************************************)
 EXTENDS Integers, FiniteSets, TLC
 
-CONSTANTS Specs, Class, Atomic, CopyEnv, MaxEdit, MaxFault, MaxTouch
+CONSTANTS Specs, Class, Atomic, CopyEnv, RecordOnFailedPull, MaxEdit, MaxFault, MaxTouch
 
 VARIABLES pkg,   \* [spec, paused, unpacked (spec recorded in status.unpackedHash, or "-"), invalid (Invalid condition)]
           dep,   \* [ex, tmpl, env (the environment the template was rendered with), paused]
@@ -114,7 +114,10 @@ Record(newUnpacked, invalid) ==
     \/ /\ Fault /\ SpendFault /\ UNCHANGED pkg /\ lastw' = NoW                         \* request lost
 PK_Record        == pc.st = "record"        /\ Record(pc.snap.spec, FALSE) /\ End(TRUE) /\ UNCHANGED <<dep, stale>>
 PK_StatusInvalid == pc.st = "statusinvalid" /\ Record(pc.snap.spec, TRUE) /\ End(TRUE) /\ UNCHANGED <<dep, stale>>
-PK_StatusFail    == pc.st = "statusfail"    /\ Record(pc.snap.unpacked, pc.snap.invalid) /\ End(FALSE) /\ UNCHANGED <<dep, stale>>
+\* (RecordOnFailedPull = TRUE, a seeded change the trace checks caught: the hash of the spec is recorded although the pull
+\* failed - the next pass finds "already unpacked" and never pulls again)
+PK_StatusFail    == pc.st = "statusfail"    /\ Record(IF RecordOnFailedPull THEN pc.snap.spec ELSE pc.snap.unpacked, pc.snap.invalid)
+                                            /\ End(FALSE) /\ UNCHANGED <<dep, stale>>
 PK_Status0       == pc.st = "status0"       /\ Record(pc.snap.unpacked, pc.snap.invalid) /\ End(TRUE) /\ UNCHANGED <<dep, stale>>
 
 PK_Crash == /\ pc.st # "idle" /\ Fault /\ SpendFault /\ pc' = Idle /\ lastw' = NoW /\ UNCHANGED <<pkg, dep, stale>>
